@@ -8,7 +8,7 @@ units; (R3) exponent algebra and rational arithmetic (shared with C03) including
 exponent never reaches the truncating Fraction constructor; (R4) folding of cancelled units:
 when the total dimension vanishes every dimensional unit contributes its factor and disappears,
 dimensionless units stay; (R5) magnitude value terms l op r in the float and Decimal branches.
-NOT decided: that these compose to numerically equal base-dimension values; numpy broadcasting."""
+NOT decided: that these compose to numerically equal base-dimension values; numpy broadcasting. Also: every add/sub a registered unit type resolves to refuses operands of different dimension (sibling agreement), and only the factors of dropped units are folded into the number."""
 import ast
 
 from ..model import AnalysisError, dotted_name, methods, norm, walk_no_nested
